@@ -1041,3 +1041,127 @@ define(globals(), 'C01', 'msp_reply_read_error', ['s1', 's2', 'ext'], "return do
        ['1 <= s1 <= 255 and s1 != 6 and 0 <= s2 <= 255 and 0 <= ext <= 0xFFFF'],
        timeout=1200, path_timeout=300, drives=SVC_DRIVES + ['cpppo.server.enip.device.Message_Router.produce', 'cpppo.server.enip.device.state_multiple_service.terminate'],
        bounds='Multiple Service Packet reply whose first member is a failed Read Tag (any error status + extended word), second a Write Tag reply', outside='')
+
+
+# ---- Connection Manager: Forward Open (small / large / mixed) and Forward Close --------------------------------------------------------------
+CM = device.Connection_Manager
+FO_DRIVES = ['cpppo.server.enip.device.Connection_Manager.produce', 'cpppo.server.enip.device.Connection_Manager service machines (Forward Open small/large, replies, Forward Close)',
+             'cpppo.server.enip.device.Connection_decode.execute', 'cpppo.server.enip.defaults.Connection (NCP encode/decode, large setter)'] + AUTOMATA
+CPATH = [{'port': 1, 'link': 0}, {'class': 2}, {'instance': 1}]
+
+
+def conn(cid, rpi, size, variable, priority, ctype, redundant):
+    return dict(connection_ID=cid, RPI=rpi, size=size, variable=variable, priority=priority, type=ctype, redundant=redundant)
+
+
+def do_forward_open_request(ot, to, prio, ticks, serial, vendor, oserial, mult, transport):
+    d = cpppo.dotdict()
+    d.path = {'segment': [cpppo.dotdict({'class': 6}), cpppo.dotdict(instance=1)]}
+    d.forward_open = {'priority_time_tick': prio, 'timeout_ticks': ticks, 'connection_serial': serial, 'O_vendor': vendor, 'O_serial': oserial,
+                      'connection_timeout_multiplier': mult, 'transport_class_triggers': transport, 'O_T': dict(ot), 'T_O': dict(to),
+                      'connection_path': {'segment': [cpppo.dotdict(s) for s in CPATH]}}
+    large = ot['size'] > 0x1FF or to['size'] > 0x1FF           # either side large => Large Forward Open, BOTH words in the 32-bit layout
+    exp = ref.forward_open(large, prio, ticks, ot['connection_ID'], to['connection_ID'], serial, vendor, oserial, mult,
+                           ot['RPI'], ref.ncp(ot['size'], ot['variable'], ot['priority'], ot['type'], ot['redundant'], large),
+                           to['RPI'], ref.ncp(to['size'], to['variable'], to['priority'], to['type'], to['redundant'], large), transport, CPATH)
+    ok, p = rt_service(CM, d, exp)
+    f = p.forward_open
+    ok = ok and p.service == (0x5b if large else 0x54) and f.priority_time_tick == prio and f.timeout_ticks == ticks and f.connection_serial == serial
+    ok = ok and f.O_vendor == vendor and f.O_serial == oserial and f.connection_timeout_multiplier == mult and f.transport_class_triggers == transport
+    for got, want in ((f.O_T, ot), (f.T_O, to)):
+        for k in ('connection_ID', 'RPI', 'size', 'variable', 'priority', 'type', 'redundant'):
+            ok = ok and got[k] == want[k]
+        ok = ok and got.large == large
+    return ok and [dict(s) for s in f.connection_path.segment] == CPATH
+
+
+for shape, (olo, ohi), (tlo, thi) in (('small_small', (1, 0x1FF), (1, 0x1FF)), ('large_large', (0x200, 0xFFFF), (0x200, 0xFFFF)),
+                                      ('small_large', (1, 0x1FF), (0x200, 0xFFFF)), ('large_small', (0x200, 0xFFFF), (1, 0x1FF))):
+    define(globals(), 'C01', 'forward_open_request_%s' % shape,
+           ['oid', 'orpi', 'osize', 'ovar', 'oprio', 'otype', 'ored', 'tid', 'trpi', 'tsize', 'tvar', 'tprio', 'ttype', 'tred', 'prio', 'ticks', 'serial', 'vendor', 'oserial', 'mult', 'transport'],
+           "return do_forward_open_request(conn(oid, orpi, osize, ovar, oprio, otype, ored), conn(tid, trpi, tsize, tvar, tprio, ttype, tred), prio, ticks, serial, vendor, oserial, mult, transport)",
+           ['0 <= oid <= 0xFFFFFFFF and 0 <= orpi <= 0xFFFFFFFF and %d <= osize <= %d and 0 <= ovar <= 1 and 0 <= oprio <= 3 and 0 <= otype <= 3 and 0 <= ored <= 1' % (olo, ohi),
+            '0 <= tid <= 0xFFFFFFFF and 0 <= trpi <= 0xFFFFFFFF and %d <= tsize <= %d and 0 <= tvar <= 1 and 0 <= tprio <= 3 and 0 <= ttype <= 3 and 0 <= tred <= 1' % (tlo, thi),
+            inr(['prio', 'ticks', 'mult', 'transport']), '0 <= serial <= 0xFFFF and 0 <= vendor <= 0xFFFF and 0 <= oserial <= 0xFFFFFFFF'],
+           timeout=1800, path_timeout=300, drives=FO_DRIVES,
+           bounds='Forward Open request with O->T %s / T->O %s connection: EVERY field symbolic (ids, RPIs 32 bit; size over the whole small resp. large range; '
+                  'variable, priority, type, redundant over their full range); either side large => Large Forward Open with both parameter words in the 32-bit '
+                  'layout' % tuple(shape.split('_')), outside='connection paths other than 1/0 -> @2/1')
+
+
+def do_forward_open_reply(large, oid, tid, serial, vendor, oserial, oapi, tapi, n, a0, a1, a2):
+    app = [a0, a1, a2][:n]
+    d = cpppo.dotdict()
+    d.service = 0xdb if large else 0xd4
+    d.status = 0
+    d.forward_open = {'O_T': {'connection_ID': oid, 'API': oapi}, 'T_O': {'connection_ID': tid, 'API': tapi}, 'connection_serial': serial,
+                      'O_vendor': vendor, 'O_serial': oserial}
+    if n:
+        d.forward_open.application = {'data': list(app)}
+    padded = app + ([0] if n % 2 else [])
+    exp = [d.service, 0, 0, 0] + ref.le(oid, 4) + ref.le(tid, 4) + ref.le(serial, 2) + ref.le(vendor, 2) + ref.le(oserial, 4) + ref.le(oapi, 4) + ref.le(tapi, 4) + [len(padded) // 2, 0] + padded
+    ok, p = rt_service(CM, d, exp)
+    f = p.forward_open
+    return (ok and f.O_T.connection_ID == oid and f.T_O.connection_ID == tid and f.connection_serial == serial and f.O_vendor == vendor and f.O_serial == oserial
+            and f.O_T.API == oapi and f.T_O.API == tapi and f.application.size == len(padded) // 2 and list(f.application.data) == padded)
+
+
+define(globals(), 'C01', 'forward_open_reply_success', [('large', 'bool'), 'oid', 'tid', 'serial', 'vendor', 'oserial', 'oapi', 'tapi', 'n', 'a0', 'a1', 'a2'],
+       "return do_forward_open_reply(large, oid, tid, serial, vendor, oserial, oapi, tapi, n, a0, a1, a2)",
+       [inr(['oid', 'tid', 'oserial', 'oapi', 'tapi'], 0, 0xFFFFFFFF), inr(['serial', 'vendor'], 0, 0xFFFF), '0 <= n <= 3', inr(['a0', 'a1', 'a2'])],
+       timeout=1800, path_timeout=300, drives=FO_DRIVES,
+       bounds='successful (Large) Forward Open reply: ids, serials, APIs symbolic; application data of 0..3 arbitrary bytes (odd length padded to words)', outside='')
+
+
+def do_forward_open_failure(large, status, ext, serial, vendor, oserial, remaining, has_remaining):
+    d = cpppo.dotdict()
+    d.service = 0xdb if large else 0xd4
+    d.status = status
+    d.status_ext = {'size': 1, 'data': [ext]}
+    d.forward_open = {'connection_serial': serial, 'O_vendor': vendor, 'O_serial': oserial}
+    exp = [d.service, 0] + ref.status(status, [ext]) + ref.le(serial, 2) + ref.le(vendor, 2) + ref.le(oserial, 4)
+    if has_remaining:
+        d.forward_open.remaining_path_size = remaining
+        exp += [remaining, 0]
+    ok, p = rt_service(CM, d, exp)
+    f = p.forward_open
+    ok = ok and p.status == status and list(p.status_ext.data) == [ext] and f.connection_serial == serial and f.O_vendor == vendor and f.O_serial == oserial
+    return ok and (not has_remaining or f.remaining_path_size == remaining)
+
+
+define(globals(), 'C01', 'forward_open_reply_failure', [('large', 'bool'), 'status', 'ext', 'serial', 'vendor', 'oserial', 'remaining', ('has_remaining', 'bool')],
+       "return do_forward_open_failure(large, status, ext, serial, vendor, oserial, remaining, has_remaining)",
+       ['1 <= status <= 255 and 0 <= ext <= 0xFFFF and 0 <= serial <= 0xFFFF and 0 <= vendor <= 0xFFFF and 0 <= oserial <= 0xFFFFFFFF and 0 <= remaining <= 255'],
+       timeout=1800, path_timeout=300, drives=FO_DRIVES,
+       bounds='failed Forward Open reply: any error status + extended word, serials, with and without remaining path size', outside='')
+
+
+def do_forward_close(prio, ticks, serial, vendor, oserial, status, n, a0, a1):
+    d = cpppo.dotdict()
+    d.path = {'segment': [cpppo.dotdict({'class': 6}), cpppo.dotdict(instance=1)]}
+    d.forward_close = {'priority_time_tick': prio, 'timeout_ticks': ticks, 'connection_serial': serial, 'O_vendor': vendor, 'O_serial': oserial,
+                       'connection_path': {'segment': [cpppo.dotdict(s) for s in CPATH]}}
+    ok, p = rt_service(CM, d, ref.forward_close(prio, ticks, serial, vendor, oserial, CPATH))
+    f = p.forward_close
+    ok = ok and p.service == 0x4e and f.priority_time_tick == prio and f.timeout_ticks == ticks and f.connection_serial == serial and f.O_vendor == vendor and f.O_serial == oserial
+    ok = ok and [dict(s) for s in f.connection_path.segment] == CPATH
+    # reply
+    app = [a0, a1][:n]
+    r = cpppo.dotdict()
+    r.service = 0xce
+    r.status = 0
+    r.forward_close = {'connection_serial': serial, 'O_vendor': vendor, 'O_serial': oserial}
+    if n:
+        r.forward_close.application = {'data': list(app)}
+    padded = app + ([0] if n % 2 else [])
+    exp = [0xce, 0, 0, 0] + ref.le(serial, 2) + ref.le(vendor, 2) + ref.le(oserial, 4) + [len(padded) // 2, 0] + padded
+    ok2, q = rt_service(CM, r, exp)
+    g = q.forward_close
+    return ok and ok2 and g.connection_serial == serial and g.O_vendor == vendor and g.O_serial == oserial and list(g.application.data) == padded
+
+
+define(globals(), 'C01', 'forward_close_request_reply', ['prio', 'ticks', 'serial', 'vendor', 'oserial', 'status', 'n', 'a0', 'a1'],
+       "return do_forward_close(prio, ticks, serial, vendor, oserial, status, n, a0, a1)",
+       [inr(['prio', 'ticks', 'status', 'a0', 'a1']), '0 <= serial <= 0xFFFF and 0 <= vendor <= 0xFFFF and 0 <= oserial <= 0xFFFFFFFF and 0 <= n <= 2'],
+       timeout=1800, path_timeout=300, drives=FO_DRIVES,
+       bounds='Forward Close request (padded connection path) and successful reply with 0..2 application bytes; every field symbolic', outside='')
